@@ -132,6 +132,32 @@ pub struct RunCfg {
     pub budgets: Vec<u16>,
     /// How many polls may get a constrained budget.
     pub budget_polls: u8,
+    /// Order in which the StreamOpts builder methods are called (0..6): the options must not
+    /// depend on it.
+    #[serde(default)]
+    pub opts_order: u8,
+}
+
+/// The three StreamOpts builder steps in one of the 6 possible call orders.
+/// I = interruptibility_state, N = interrupted_next_item_include, R = rev (only if requested).
+pub fn build_opts<'rx, 'intx>(order: u8, state: InterruptibilityState<'rx, 'intx>, include: bool, rev: bool) -> StreamOpts<'rx, 'intx> {
+    const ORDERS: [[u8; 3]; 6] = [[0, 1, 2], [0, 2, 1], [1, 0, 2], [1, 2, 0], [2, 0, 1], [2, 1, 0]];
+    let mut opts = StreamOpts::new();
+    let mut state = Some(state);
+    for step in ORDERS[(order % 6) as usize] {
+        opts = match step {
+            0 => opts.interruptibility_state(state.take().expect("once")),
+            1 => opts.interrupted_next_item_include(include),
+            _ => {
+                if rev {
+                    opts.rev()
+                } else {
+                    opts
+                }
+            }
+        };
+    }
+    opts
 }
 
 impl RunCfg {
@@ -151,11 +177,15 @@ impl RunCfg {
             abort_at: None,
             budgets: vec![],
             budget_polls: 0,
+            opts_order: 0,
         }
     }
 
     pub fn short(&self) -> String {
         let mut s = format!("{}", self.api.name());
+        if self.opts_order != 0 {
+            s += &format!(" opts-order={}", self.opts_order);
+        }
         if self.rev {
             s += " rev";
         }
@@ -517,12 +547,7 @@ fn run_inner(g: &mut FnGraph<Node>, cfg: &RunCfg, sh: &Sh) -> DriveRes {
         Strat::Finish => InterruptibilityState::new_finish_current((&mut irx).into()),
         Strat::NextN(k) => InterruptibilityState::new_poll_next_n((&mut irx).into(), k),
     };
-    let mut opts = StreamOpts::new()
-        .interruptibility_state(state)
-        .interrupted_next_item_include(cfg.include);
-    if cfg.rev {
-        opts = opts.rev();
-    }
+    let opts = build_opts(cfg.opts_order, state, cfg.include, cfg.rev);
     let intx = if cfg.strat == Strat::Non { None } else { Some(&itx) };
     let limit = cfg.limit;
     let sh2 = sh.clone();
